@@ -108,6 +108,18 @@ func domain(r *rng.R, t reflect.Type) interface{} {
 	case reflect.Interface:
 		return r.Intn(4) // ints only: cross-kind equality is C18's business
 	default:
+		if t.Size() == 8 && r.Chance(120) {
+			// neighbours beyond 2^53 and at the top of the range: equal as float64, different as integers
+			big := []int64{1 << 53, 1<<53 + 1, 1<<63 - 1, 1<<63 - 2, -(1 << 53), -(1<<53 + 1)}
+			v := big[r.Intn(len(big))]
+			if t.Kind() == reflect.Uint64 || t.Kind() == reflect.Uint || t.Kind() == reflect.Uintptr {
+				if v < 0 {
+					v = -v
+				}
+				return reflect.ValueOf(uint64(v)).Convert(t).Interface()
+			}
+			return reflect.ValueOf(v).Convert(t).Interface()
+		}
 		return reflect.ValueOf(r.Intn(4)).Convert(t).Interface()
 	}
 }
